@@ -41,7 +41,10 @@ def structure(draw, max_chains=3, nmax=6, wild=False, contact=True, waters=True,
                                    mode=draw(st.sampled_from(["tail", "tail", "gap", "backbone-O"])))  # fmt: skip
         chains.append(ch)
     desc = dict(chains=chains)
-    cols = draw(st.sampled_from([None, None, None, "no-element", "no-element", "short", "segid"]))
+    order = draw(st.sampled_from([None, None, None, None, "others-first", "reverse-chains", "interleave"]))
+    if order:
+        desc["order"] = order  # same records in another file order
+    cols = draw(st.sampled_from([None, None, None, "no-element", "no-element", "short", "segid", "left-names"]))
     if cols:
         desc["columns"] = cols  # PDB columns after the coordinates: element absent / line cut / segment id
     if cif and draw(st.integers(0, 3)) == 0:
